@@ -8,6 +8,8 @@
 """
 from __future__ import annotations
 
+import ast
+
 from typing import Any, List
 
 from ..absint import App, ClassRef, ExcVal, FuncRef, Hooks, Interp, Sym, vrepr
@@ -161,6 +163,43 @@ def run(repo: Repo, chk: Check) -> None:
             if isinstance(obj, Sym):
                 return 'str' in names
             return NotImplemented
+
+    # the subclasses register themselves when their module is imported: the module that defines them must be imported by `import pytezos` itself
+    # (import graph from the package root over unconditional top-level imports), or the table is empty for a process that never names it
+    reg_mods = sorted({repo.classes[q].module.name for q in repo.subclasses(f'{NODE}.RpcError')})
+    graph = {}
+    for mi2 in repo.modules.values():
+        deps = set()
+        for st in mi2.tree.body:
+            names = []
+            if isinstance(st, ast.Import):
+                names = [a.name for a in st.names]
+            elif isinstance(st, ast.ImportFrom) and st.level == 0 and st.module:
+                names = [st.module] + [f'{st.module}.{a.name}' for a in st.names]
+            for nm in names:
+                parts = nm.split('.')
+                for k in range(len(parts), 0, -1):
+                    cand = '.'.join(parts[:k])
+                    if cand in repo.modules:
+                        deps.add(cand)
+                        # importing a submodule imports its packages
+                        for j in range(1, k):
+                            if '.'.join(parts[:j]) in repo.modules:
+                                deps.add('.'.join(parts[:j]))
+                        break
+        graph[mi2.name] = deps
+    seen, todo = set(), ['pytezos']
+    while todo:
+        m = todo.pop()
+        if m in seen:
+            continue
+        seen.add(m)
+        todo.extend(graph.get(m, ()))
+    unreachable = [m for m in reg_mods if m not in seen]
+    chk.ob('R-FLOW', f'{NODE}.RpcError', bool(reg_mods) and not unreachable, 'the modules that register the error classes are imported by `import pytezos`', None,
+           {'registering_modules': reg_mods, 'not_imported_from_the_package_root': unreachable, 'modules_reached': len(seen)},
+           what=f'{unreachable} define the registered error classes but are not imported (directly or transitively) by `import pytezos`: the handler table stays empty and '
+                'every node error is mapped to the generic RpcError')
 
     for label, given in (('a single identifier', Sym('id_a', 'str')), ('a list of two identifiers', [Sym('id_a', 'str'), Sym('id_b', 'str')])):
         h = RegHooks()
